@@ -53,59 +53,60 @@ impl<K, V, E, S> RawLRU<K, V, E, S> {
         }
     }
 
-    /// Representation invariant of DESIGN.md 4.1 (second sentence of C03), as an executable audit.
-    /// Uses pointer equalities only; dereferences every node reachable from the index, so a
-    /// dangling index entry is a CBMC pointer-check failure as well.
-    pub(crate) fn verif_wf(&self) -> bool
+    /// One pass over the list that yields both the abstract view and the verdict of the representation
+    /// invariant of DESIGN.md 4.1 (the second sentence of C03): head.prev and tail.next are null; following
+    /// `next` from the head sentinel reaches the tail sentinel within NMAX steps; `x.next.prev == x` on every
+    /// link; the index has exactly one entry per linked node, each keyed by the ADDRESS of its own node's key;
+    /// keys pairwise distinct.  Every linked node is dereferenced (CBMC checks those reads).
+    pub(crate) fn verif_check(&self) -> (Abs, bool)
     where
-        K: Eq,
+        K: Vid,
+        V: Vid,
     {
+        let mut a = Abs::empty(self.cap);
+        let mut ok = true;
+        let mut nodes: [*mut EntryNode<K, V>; NMAX] = [core::ptr::null_mut(); NMAX];
+        let mut keyaddr: [*const K; NMAX] = [core::ptr::null(); NMAX];
         unsafe {
-            if !(*self.head).prev.is_null() || !(*self.tail).next.is_null() {
-                return false;
+            if !(*self.head).prev.is_null() || !(*self.tail).next.is_null() || self.head == self.tail {
+                ok = false;
             }
-            if self.head == self.tail {
-                return false;
-            }
-            let (nodes, n, complete) = self.verif_nodes();
-            if !complete {
-                return false;
-            }
-            // back links
-            let mut ok = true;
             let mut prev = self.head;
+            let mut p = (*self.head).next;
             let mut i = 0;
             while i < NMAX {
-                if i < n {
-                    if (*nodes[i]).prev != prev {
+                if p != self.tail {
+                    let node = &*p;
+                    if node.prev != prev || p == self.head {
                         ok = false;
                     }
-                    if nodes[i] == self.head || nodes[i] == self.tail {
-                        ok = false;
-                    }
-                    prev = nodes[i];
+                    nodes[i] = p;
+                    keyaddr[i] = node.key.as_ptr();
+                    a.k[i] = (*node.key.as_ptr()).vid();
+                    a.v[i] = (*node.val.as_ptr()).vid();
+                    a.n += 1;
+                    prev = p;
+                    p = node.next;
                 }
                 i += 1;
             }
-            if (*self.tail).prev != prev {
+            a.complete = p == self.tail;
+            if !a.complete || (*self.tail).prev != prev {
                 ok = false;
             }
-            // index: exactly n entries, each a distinct linked node, keyed by the address of its own key
-            if self.map.len() != n {
-                return false;
-            }
+        }
+        if self.map.len() != a.n {
+            ok = false;
+        } else {
             let mut j = 0;
             while j < NMAX {
-                if j < n {
+                if j < a.n {
                     let (kr, nn) = self.map.verif_slot(j);
                     let np = nn.as_ptr();
-                    if kr.k != (*np).key.as_ptr() as *const K {
-                        ok = false;
-                    }
                     let mut hits = 0;
                     let mut i = 0;
                     while i < NMAX {
-                        if i < n && nodes[i] == np {
+                        if i < a.n && nodes[i] == np && keyaddr[i] == kr.k {
                             hits += 1;
                         }
                         i += 1;
@@ -123,20 +124,19 @@ impl<K, V, E, S> RawLRU<K, V, E, S> {
                 }
                 j += 1;
             }
-            // keys pairwise distinct
-            let mut i = 0;
-            while i < NMAX {
-                let mut j = i + 1;
-                while j < NMAX {
-                    if j < n && *(*nodes[i]).key.as_ptr() == *(*nodes[j]).key.as_ptr() {
-                        ok = false;
-                    }
-                    j += 1;
-                }
-                i += 1;
-            }
-            ok
         }
+        if !a.distinct() {
+            ok = false;
+        }
+        (a, ok)
+    }
+
+    pub(crate) fn verif_wf(&self) -> bool
+    where
+        K: Vid,
+        V: Vid,
+    {
+        self.verif_check().1
     }
 }
 
